@@ -126,7 +126,11 @@ func viSeeds() []Seed {
 	with("multiline", "0", "i", "(", "\r", "x", "\x1b")
 	seeds = append(seeds,
 		Seed{Name: "cmd/two-lines", Pre: Keys("(ab", "\r", "cd", "\x1b", "k")},
-		Seed{Name: "cmd/empty-line-between", Pre: Keys("(a", "\r", "\r", "b", "\x1b", "k")})
+		Seed{Name: "cmd/empty-line-between", Pre: Keys("(a", "\r", "\r", "b", "\x1b", "k")},
+		// a named register filled by a line-wise / word-wise yank (a later yank appended to it through
+		// its upper-case name must leave the buffer alone)
+		Seed{Name: "cmd/two-lines-yanked-into-a", Pre: Keys("(ab", "\r", "cd", "\x1b", "k", "\"", "a", "Y")},
+		Seed{Name: "cmd/word-yanked-into-a", Pre: Keys("foo bar", "\x1b", "0", "\"", "a", "y", "w")})
 	return seeds
 }
 
